@@ -39,6 +39,7 @@ type ruleT struct {
 	Severity string   `json:"severity,omitempty"`
 	Multi    bool     `json:"multi,omitempty"`
 	MultiTr  []string `json:"multi_tr,omitempty"` // transformation list used with multiMatch (default: lowercase)
+	NoLog    bool     `json:"nolog,omitempty"`    // a silent rule still fires: its actions run and its severity counts
 	Link     *linkT   `json:"link,omitempty"`
 }
 
@@ -147,6 +148,8 @@ var actionMenu = [][]string{
 	{"setvar:tx.k=1", "setvar:!tx.k", "setvar:tx.k=2", "setvar:tx.s=+1"},
 	{"setvar:tx.%{matched_var}=+1"},                              // the whole key is one macro
 	{"setvar:tx.%{matched_var}=+1", "setvar:!tx.%{matched_var}"}, // ... also when deleting
+	{"setvar:tx.s=+1", "setvar:tx.s=+1"},                           // the same action listed twice runs twice per matched value
+	{"setvar:tx.s=+%{tx.t}", "setvar:tx.u=1", "setvar:tx.s=+%{tx.t}"},
 }
 
 var targets = []string{"ARGS_GET", "ARGS_GET:a", "REQUEST_HEADERS:X-H"}
@@ -162,6 +165,9 @@ func ruleMenu(thorough bool) []ruleT {
 				sev = "NOTICE"
 			}
 			out = append(out, ruleT{Target: t, Actions: a, Severity: sev})
+			if sev == "CRITICAL" {
+				out = append(out, ruleT{Target: t, Actions: a, Severity: sev, NoLog: true})
+			}
 			if i < 5 || thorough {
 				out = append(out, ruleT{Target: t, Actions: a, Multi: true})
 			}
@@ -186,6 +192,9 @@ func conf(rules []ruleT, phases ...int) string {
 	last := phaseOf(phases, len(rules)-1)
 	for i, r := range rules {
 		acts := []string{fmt.Sprintf("id:%d", (i+1)*10), fmt.Sprintf("phase:%d", phaseOf(phases, i)), "log"}
+		if r.NoLog {
+			acts[2] = "nolog"
+		}
 		hasDisruptive := false
 		for _, a := range r.Actions {
 			if a == "deny" {
